@@ -29,6 +29,7 @@ use crate::world::{IncomingAction, Ns, Scenario, World, MS, SEC};
 
 const TAG_SECOND: u64 = TAG_USER + 17;
 const TAG_LATE: u64 = TAG_USER + 18;
+const TAG_EARLY_OP: u64 = TAG_USER + 19;
 
 #[derive(Clone, Copy, Debug, PartialEq, Eq)]
 pub enum Mode {
@@ -53,6 +54,9 @@ pub struct C17Scen {
     pub cfg2: Arc<quinn_proto::ServerConfig>,
     wait_idx: Option<usize>,
     pub retry2: bool,
+    /// the early application resets / stops one of its early streams this long after connecting
+    /// (while the handshake is still in progress)
+    pub early_op: Option<(Ns, bool)>,
     budget2: u64,
     dirs2: (bool, bool),
 }
@@ -121,8 +125,12 @@ impl C17Scen {
         let late_accept = if w.ch.chance("c17.late_accept", 1, 4) { Some(w.ch.range_log("c17.late_ms", 1, 3000) * MS) } else { None };
         let close_first = w.ch.chance("c17.close_first", 1, 2);
         let retry2 = w.ch.chance("c17.retry2", 1, 3);
+        let early_op = if w.ch.chance("c17.early_op", 1, 3) { Some((w.ch.range_log("c17.early_op_us", 1, 3 * w.net.base_delay / 1000 + 1000) * 1000, w.ch.chance("c17.early_op_stop", 1, 2))) } else { None };
+        if let Some((d, _)) = early_op {
+            w.wake_at(t2 + d, TAG_EARLY_OP);
+        }
         w.wake_at(t2, TAG_SECOND);
-        Self { b, t2, mode, alt, lowered, late_accept, close_first, second: None, had_0rtt: false, cfg2: Arc::new(cfg2), wait_idx: None, retry2, budget2, dirs2 }
+        Self { b, t2, mode, alt, lowered, late_accept, close_first, second: None, had_0rtt: false, cfg2: Arc::new(cfg2), wait_idx: None, retry2, early_op, budget2, dirs2 }
     }
 
     fn start_second(&mut self, w: &mut World) {
@@ -199,6 +207,36 @@ impl Scenario for C17Scen {
     fn on_wake(&mut self, w: &mut World, tag: u64) {
         if tag == TAG_SECOND {
             self.start_second(w);
+        } else if tag == TAG_EARLY_OP {
+            let Some(inc) = self.second else { return };
+            let early = self.b.wl.sides.get(&inc).is_some_and(|s| s.early && !s.connected && s.lost.is_none());
+            if !early || w.conns[inc as usize].conn.is_closed() {
+                return;
+            }
+            let stop = self.early_op.is_some_and(|x| x.1);
+            if stop {
+                // stop the receiving half of an early bidirectional stream
+                let cand = self.b.wl.sides[&inc].recvs.iter().find(|(_, r)| r.terminal.is_none()).map(|(id, _)| *id);
+                if let Some(sid) = cand {
+                    let id = quinn_proto::StreamId::new(Side::Client, quinn_proto::Dir::Bi, sid >> 2);
+                    if w.conn_mut(inc).recv_stream(id).stop(VarInt::from_u32(99)).is_ok() {
+                        self.b.wl.sides.get_mut(&inc).unwrap().recvs.get_mut(&sid).unwrap().terminal = Some(crate::app::RTerm::Stopped(99));
+                        w.faults.hit("early_stream_stopped");
+                    }
+                }
+            } else {
+                let cand = self.b.wl.sides[&inc].sends.iter().find(|(_, st)| matches!(st.state, crate::app::SState::Writing | crate::app::SState::FinishCalled)).map(|(id, _)| *id);
+                if let Some(sid) = cand {
+                    let dir = if sid & 2 == 0 { quinn_proto::Dir::Bi } else { quinn_proto::Dir::Uni };
+                    let id = quinn_proto::StreamId::new(Side::Client, dir, sid >> 2);
+                    if w.conn_mut(inc).send_stream(id).reset(VarInt::from_u32(98)).is_ok() {
+                        let st = self.b.wl.sides.get_mut(&inc).unwrap().sends.get_mut(&sid).unwrap();
+                        st.reset_code = Some(98);
+                        st.state = crate::app::SState::ResetCalled(98);
+                        w.faults.hit("early_stream_reset");
+                    }
+                }
+            }
         } else if tag == TAG_LATE {
             if let Some(i) = self.wait_idx {
                 if let Some(wt) = w.waiting[i].take() {
